@@ -14,7 +14,10 @@ impl<T: Into<String>> From<T> for Comment {
 impl Comment {
     /// Write this comment to a css output buffer.
     pub(crate) fn write(&self, buf: &mut CssBuf) {
-        if self.0.starts_with('#') {
+        // Ignore sourceMappingURL and sourceURL comments.
+        if self.0.starts_with("# sourceMappingURL=")
+            || self.0.starts_with("# sourceURL=")
+        {
             buf.add_one("\n", "");
             return;
         }
